@@ -37,9 +37,10 @@ def alt_instances():
     repo_v = open(os.path.join(vf.COQ, "C07", "Repo.v")).read().replace(" Gen.RepoSkel", "")
     path = os.path.join(OUTD, "alt_instances.v")
     with open(path, "w") as f:
-        f.write(open(GEN).read() + "\n" + repo_v + "\nPrint Assumptions repo_safe.\nPrint Assumptions repo_linearizable.\n")
+        f.write(open(GEN).read() + "\n" + repo_v + "\nPrint Assumptions repo_safe.\nPrint Assumptions repo_linearizable.\n"
+                "Print Assumptions repo_explored_schedule_safe.\n")
     rc, o = vf.coqc_file(path, timeout=900)
-    return rc == 0 and o.count("Closed under the global context") >= 2, o
+    return rc == 0 and o.count("Closed under the global context") >= 3, o
 
 
 def read_obs_tolerant(path):
@@ -170,6 +171,8 @@ def run_stress(rep, tier, seed, n, only=None, tag="stress", test=None):
     st = dict(STREAM)
     if os.environ.get("VERIF_C07_NORACE") == "1":     # experiments only: look at the linearizability check alone
         st["race"] = False
+        rep.notes.append("EXPERIMENT SWITCH VERIF_C07_NORACE=1: the race detector is OFF for this run - not a valid check run")
+        rep.obligation("switch:VERIF_C07_NORACE-unset", False)
     ov = c07_overlay(False)
     env = {"VERIF_SEED": seed, "VERIF_N": n, "VERIF_TIER": tier}
     if only is not None:
@@ -192,6 +195,13 @@ def run_stress(rep, tier, seed, n, only=None, tag="stress", test=None):
     return "ok", "", obs
 
 
+# the clone stream has no Coq evaluator: its verdict (no shared node / non-empty backing array, source unchanged after
+# mutating the clone) is computed on the Go side; listed here so that the streams are counted consistently
+CLONE = {
+    "name": "clone", "pkg": "./internal/rules", "test": "TestVerifC07Clone",
+    "eval_module": None, "check_term": "(Go side only)", "n_quick": 300, "n_thorough": 3000,
+}
+
 # --------------------------------------------------------------------------- stream "sched": schedule exploration
 
 SCHED = {
@@ -204,7 +214,7 @@ INSTR_JSON = os.path.join(OUTD, "instr.json")
 ACCESS_GO = os.path.join(OUTD, "zz_verif_c07_access_test.go")
 
 
-def gen_instr():
+def gen_instr(rep=None):
     """rebuild harness/tools/instr; write the instrumented copies of the files declaring the guarded state of the checked
     tree, and the accessor file through which the drivers reach the repository's fields (bound by TYPE, not by name)"""
     os.makedirs(OUTD, exist_ok=True)
@@ -564,7 +574,7 @@ def custom(P, tier, seed, replay=None):
     # 2b. Tree.Clone is deep (structurally: no shared node / non-empty backing array; behaviourally: mutating the clone
     # leaves the source's answers unchanged), on trees with wildcards and catch-alls
     if (not replay or replay.get("stream") == "clone") and not sched_replay:
-        nc = 300 if tier == "quick" else 3000
+        nc = CLONE["n_quick"] if tier == "quick" else CLONE["n_thorough"]
         cstatus, cdetail, cobs = run_stress(rep, tier, seed, nc, tag="clone", test="TestVerifC07Clone",
                                             only=(replay["case"]["i"] if replay and replay.get("case") else None))
         cmds.append("driver -test.run ^TestVerifC07Clone$ (VERIF_SEED=%s VERIF_N=%s)" % (seed, nc))
@@ -631,8 +641,15 @@ P = {
                  "C07_no_lost_update", "C07_seq_spec_total", "C07_repo_safe", "C07_repo_linearizable",
                  "C07_explored_schedule_is_model_execution", "C07_explored_schedule_same_history",
                  "C07_explored_schedule_safe", "C07_repo_explored_schedule_safe"],
-    "streams": [STREAM, SCHED],
-    "generators": [gen_skel],
+    "streams": [STREAM, CLONE, SCHED],
+    "technique": "lock / copy-on-write skeleton REGENERATED from repository_impl.go by a go/ast translator (harness/tools/skel) + general "
+                 "theorems over the interleaving semantics of sync.Mutex/RWMutex for every skeleton passing wf_skel + race-detector "
+                 "stress histories of the real repository checked for atomicity against the real code run sequentially + reflective "
+                 "deep-clone check + exhaustive / sampled schedule exploration of an automatically instrumented copy (harness/tools/"
+                 "instr, harness/sched), each event log replayed through the skeleton semantics in Coq; no hand-written model of the "
+                 "repository is involved except the literal-path cross-check repo_apply",
+    "category": "proof-partial",
+    "generators": [gen_skel, gen_instr],
     "custom": custom,
     "rule": "stress stream: per case a fresh REAL repository wired as in module.go (newRepository + NewRuleSetProcessor), fed "
             "through the real rule-set processor (OnCreated/OnUpdated/OnDeleted) with rules whose routes/matchers are the real "
@@ -655,13 +672,13 @@ P = {
             "stand-ins of harness/sched, every read / assignment of r.dr / r.knownRules / r.index and every method call on a tree "
             "behind r.index logged); a controller runs the goroutines of a plan one at a time and switches only where an operation "
             "is invoked and at Lock/RLock/Unlock/RUnlock; a schedule is the list of thread ids chosen there and reproduces the "
-            "execution event for event (bin/check C07 --replay).  10 hand-written tiny plans (2 writers of different or the same source x 1-2 "
+            "execution event for event (bin/check C07 --replay).  10 hand-written tiny plans (1-2 writers of different or the same source x 1-2 "
             "changes + 1-2 readers after a sequential set-up: concurrent adds, update vs add, delete vs update, two-route delete "
             "vs two lookups, colliding adds with a follow-up change, two updates of one source, delete + re-add, default rule, "
             "wildcards) and up to 8 (thorough: 60) generated tiny "
             "plans are enumerated EXHAUSTIVELY, depth first, with sleep sets (one execution per class of executions that differ "
             "only in the order of independent steps; the reduction is self-tested against plain enumeration in the thorough tier: "
-            "same set of outcomes); the two delete plans (thorough: all hand-written plans) are enumerated a second time with "
+            "same set of outcomes); plans 2 and 3 (delete vs update, two-route delete vs two lookups; thorough: all hand-written plans) are enumerated a second time with "
             "assignments to guarded fields and method calls on tree objects as additional scheduling points; plans of the "
             "stress generator are sampled (12 schedules each: seeded random walk and PCT with "
             "depth 3).  Per schedule Coq (Run/Eval_C07Sched.v) checks: the logged events are an execution of the interleaving "
@@ -670,18 +687,21 @@ P = {
             "linearizable w.r.t. the real code run sequentially (same evaluator as stress), no happens-before data race among the "
             "logged accesses, no deadlock (re-validated: no thread of the model can move), no unlock of an unlocked mutex.  "
             "Non-trivial = operations of different goroutines, one a change, overlap; distinct by hash of plan + schedule.",
-    "anchors": ["internal/rules/repository_impl.go", "internal/x/radixtree/tree.go"],
+    "anchors": ["internal/rules/repository_impl.go", "internal/x/radixtree/tree.go", "internal/rules/ruleset_processor_impl.go"],
     "trusted": [
         "harness/tools/skel (go/ast): the translation of repository_impl.go into the event skeleton (lock/unlock/defer, reads/writes "
         "of r.knownRules / r.dr, loads/stores of r.index incl. sync/atomic.Pointer, Clone / mutating / read-only calls on tree "
         "objects, inlining of addRulesTo/removeRulesFrom, closures as loop bodies; ANY other method call on or through a guarded "
         "field, escaping receivers, aliases, goroutines, a constructor used other than in fx.Provide ... become EUnsupported, which "
-        "the Coq check rejects) and its syntactic classification of radixtree methods as receiver-mutating or not; 30 self-tests "
-        "run with every check (cached by source hash); Base/Locks.v method_paths (enumeration of paths: defers at returns, loops "
+        "the Coq check rejects) and its syntactic classification of radixtree methods as receiver-mutating or not; 6 self-test "
+        "functions (table driven, about 35 cases: constructs to refuse, translations to produce, nested structs) run with every "
+        "check (cached by source hash); Base/Locks.v method_paths (enumeration of paths: defers at returns, loops "
         "summarised as zero or one iteration of object accesses) is evaluated inside Coq but is not proved against Go's semantics.  "
-        "Both are now CROSS-CHECKED at run time on every explored schedule (stream sched): the events the instrumented code "
-        "really executes must replay as an execution of the skeleton semantics (theorem C07_explored_schedule_is_model_execution: "
-        "what the replay accepts is such an execution) - on the explored plans and schedules only, not for all inputs",
+        "Both are CROSS-CHECKED at run time on every explored schedule (stream sched): the events the instrumented code "
+        "really executes must replay as an execution of the skeleton semantics (theorems C07_explored_schedule_is_model_execution "
+        "+ C07_explored_schedule_same_history TOGETHER: a log replayed without error is, all of it, such an execution with the "
+        "logged invocations and responses; the first alone also holds of a log rejected at once) - on the explored plans and "
+        "schedules only, not for all inputs",
         "extractor, instrumenter and drivers identify the guarded state STRUCTURALLY (mutexes by their type, data leaves by "
         "their position; structs of the package nested by value - embedded or named - are flattened depth first, their methods "
         "inlined / instrumented with the receiver standing for that part of the state; the drivers reach the tree pointer, the rule "
@@ -707,7 +727,9 @@ P = {
         "CHECKED dynamically (clone stream: reflect walk + behavioural test, wildcards included) but not proved; a slice of length 0 "
         "may keep the source's spare capacity (benign while clones are made under the writer lock only); rule/route/matcher "
         "objects and the request are outside the model (exercised by -race with the real matchers only)",
-        "crash clause: the theorem covers unlock-of-unlocked-mutex, nil tree pointers and untranslated code; panics inside tree / "
+        "crash clause: the theorem covers unlock of a mutex the thread does not hold, use of a tree VARIABLE (method-local) that was "
+        "never loaded or cloned, and untranslated code; that the pointer field r.index itself is non-nil is the hypothesis `initial` "
+        "of the theorems (the body of newRepository is not extracted; a store of nil is untranslatable); panics inside tree / "
         "matcher code are only observed (an operation that panics in the stress run is a VIOLATION with the history as replay)",
         "stress stream: the sequential oracle is the real code (snapshots via Clone, checked by the clone stream); the witness search "
         "is untrusted, order and results are re-validated in Coq; coq/C07/Model.v repo_apply (literal paths) is a cross-check only",
@@ -716,7 +738,7 @@ P = {
     ],
     "level_text": "Proof (kernel-checked, no axioms), for EVERY lock skeleton passing the boolean check wf_skel and for unboundedly many "
                   "goroutines and operations (induction over the interleaving semantics of sync.Mutex/RWMutex, with and without writer "
-                  "preference): (1) no unlock-of-unlocked-mutex / nil-tree crash, no data race on r.index / r.knownRules / r.dr nor on "
+                  "preference): (1) no unlock-of-unlocked-mutex, no use of a tree variable that was never loaded or cloned, no data race on r.index / r.knownRules / r.dr nor on "
                   "any tree object (lockset + ownership of private clones; published trees are never written), mutual exclusion, "
                   "deadlock freedom (rank certificate knownRulesMutex < rulesTreeMutex); (2) LINEARIZABILITY by forward simulation with "
                   "linearization points: every execution is equivalent to the sequential execution (seq_run: the same method body run "
@@ -734,10 +756,11 @@ P = {
                   "by scheduler-aware stand-ins, guarded accesses logged) is run under EVERY lock-boundary schedule of 10 hand-written and some generated tiny plans "
                   "(sleep-set reduced) and sampled schedules of larger ones, 1100 / 20000 schedules, each deterministic and replayable "
                   "from its list of thread ids; Coq replays each event log through the interleaving semantics of the regenerated "
-                  "skeleton - proved: what the replay accepts is an execution of that semantics with exactly the logged invocations "
-                  "and responses, hence (wf_skel) crash-free, race-free and linearizable by the theorems above - and checks "
-                  "linearizability of the observed results, happens-before race freedom of the log and absence of deadlock per "
-                  "schedule.",
+                  "skeleton - proved: a log replayed without error is an execution of that semantics with exactly the logged invocations "
+                  "and responses; for it the general theorems give crash- and race-freedom and a linearization OF THE MODEL EXECUTION "
+                  "(values are abstracted to unit there).  That the RESULTS the real operations returned are linearizable is checked "
+                  "per schedule, not proved; so are happens-before race freedom of the log and absence of deadlock.  Three streams: "
+                  "stress, clone (Go side only, no Coq evaluation), sched.",
     "level_note": "PARTIAL. Proved about the skeleton semantics, not about Go: the Go memory model and scheduler are not modelled "
                   "(sequentially consistent interleavings; lockset discipline => DRF is taken to be what Go guarantees), the "
                   "go/ast extractor and the path enumeration are not proved correct (they are cross-checked against the events the "
@@ -747,6 +770,8 @@ P = {
                   "uninterpreted write functions (value semantics for trees); that this coincides with the repository's functional "
                   "behaviour (repo_apply, literal paths) is observed by the stress stream, not proved.",
     "assumptions": [
+        "newRepository leaves the tree pointer non-nil: assumed by the hypothesis `initial` of the theorems (every pointer field "
+        "points to an allocated object), not extracted; only observed (every stream would panic at once otherwise)",
         "guarded fields of `repository` are accessed only from repository_impl.go (the extractor scans the other files of the "
         "package for the field and unexported method names and rejects the skeleton otherwise)",
         "the stress stream's schedules are whatever the Go scheduler produces on the machine; the race detector only reports races "
